@@ -18,6 +18,7 @@ import (
 	"github.com/bradenaw/juniper/stream"
 	"pgregory.net/rapid"
 
+	"verif/harness/sk"
 	"verif/harness/vk"
 )
 
@@ -28,9 +29,9 @@ func TestMain(m *testing.M) { suite.Main(m) }
 type Plan struct {
 	MaxWaitUs int   `json:"max_wait_us"`
 	BatchSize int   `json:"batch_size"`
-	GapsUs    []int `json:"gaps_us"` // delay before each source item
-	PaceUs    []int `json:"pace_us"` // consumer delay before each Next (cycled)
-	CallUs    int   `json:"call_us"` // per-call timeout of the consumer, 0 = none
+	GapsUs    []int `json:"gaps_us"`  // delay before each source item
+	PaceUs    []int `json:"pace_us"`  // consumer delay before each Next (cycled)
+	CallUs    int   `json:"call_us"`  // per-call timeout of the consumer, 0 = none
 	CloseAt   int   `json:"close_at"` // close after that many batches; -1 = read to the end
 	// Slow: items at which the BatchFunc predicate takes 2 x maxWait (user code runs in Batch's own
 	// goroutine, so its timer can fire while nobody is selecting on it)
@@ -162,7 +163,7 @@ func run(p Plan) (vk.Outcome, error) {
 		}
 		ctx, cancel := context.Background(), context.CancelFunc(func() {})
 		if p.CallUs > 0 && expired < 3 {
-			ctx, cancel = context.WithTimeout(ctx, us(p.CallUs))
+			ctx, cancel = sk.WithTimeout(ctx, us(p.CallUs))
 		}
 		batch, err := b.Next(ctx)
 		got := time.Now()
